@@ -62,7 +62,7 @@ def tie(ctx, cases=None):
     for f in sorted(os.listdir(CORPUS)):
         if f.endswith(".case"):
             ts.append(chanlib.tie(ctx, "chainb-corpus-" + f[:-5], [h, "run", os.path.join(CORPUS, f), "--atomics"], [drv]))
-    n = cases or (600 if ctx.quick else 30000)
+    n = cases or (600 if ctx.quick else 8000)
     for mode in ("seq", "conc", "async"):
         ts.append(chanlib.tie(ctx, "chainb-atomic-steps-" + mode,
                           [h, "gen", "--seed", str(ctx.seed), "--cases", str(n), "--mode", mode, "--flavours", FLAVOURS, "--atomics"]
